@@ -141,7 +141,7 @@ pub fn phrases(l: L, short: bool) -> (String, String, String) {
     (p1, p2, compound)
 }
 
-pub const NCALLS: usize = 14;
+pub const NCALLS: usize = 15;
 /// calls 0..SCHED_CALLS are used in thread programs; the rest are partial calls for histories
 pub const SCHED_CALLS: usize = 7;
 pub fn call_name(i: usize) -> &'static str {
@@ -160,6 +160,7 @@ pub fn call_name(i: usize) -> &'static str {
         "find_numbers(ordinals 1 and 25, inflection 2)",
         "find_numbers(ordinals 1 and 25, inflection 3)",
         "find_numbers(ordinals 1 and 25, last inflection)",
+        "find_numbers_iter(small adjacent numbers, threshold 10).next() then dropped",
     ][i]
 }
 /// adjacent numbers separated by nothing but spaces: when one is returned the next is already being built
@@ -232,6 +233,14 @@ pub fn call_on<I: LangInterpreter>(lang: &I, l: L, i: usize, short: bool) -> Str
         11 | 12 | 13 => {
             let t = toks_pulled(&inflected_phrase(l, i - 11));
             occs_str(find_numbers(GIter { it: t.iter() }, lang, 0.0))
+        }
+        // abandoned lazy scan with a threshold: a held small number is released together with its neighbour, so two
+        // occurrences are queued when the first is returned and the iterator is dropped
+        14 => {
+            let s = |n| spell::spell(l, n, Var::default());
+            let t = toks_pulled(&format!("xyzzy {} {} xyzzy {} {}", s(1), s(2), s(3), s(4)));
+            let mut it = find_numbers_iter(GIter { it: t.iter() }, lang, 10.0);
+            it.next().map(|o| Occ::of(&o).show()).unwrap_or_default()
         }
         // four separate numbers: four calls of the replacement constructor in one rewriting
         _ => {
